@@ -4,7 +4,6 @@ import (
 	"context"
 	"sync"
 
-	"go.miragespace.co/specter/spec/chord"
 	rt "go.miragespace.co/specter/zzverifrt"
 )
 
@@ -36,7 +35,7 @@ func ZZ_C18_Memory() {
 		if rt.Fork("initially-held") {
 			tok, err := kv.Acquire(ctx, zz18Key, zz18TTL())
 			rt.Assert(err == nil && tok != 0, "sequential-acquire-of-a-free-lease-works")
-			init.lease = tok
+			init.lease, init.held = tok, true
 		}
 	}
 	progs := make([][]*zz18Op, T)
@@ -72,78 +71,4 @@ func ZZ_C18_Memory() {
 	}
 	zz18Verdicts(init, progs, issued, tail)
 	rt.Reach("end")
-}
-
-// zz18Verdicts: the linearizability verdict plus the three special cases the statement names.
-func zz18Verdicts(init zz18State, progs, issued [][]*zz18Op, tail []*zz18Op) {
-	T := len(progs)
-	rt.Assert(zz18Explains(init, issued, make([]int, T), tail, zz18MutatesSimple(issued)), "history-has-a-linearisation")
-
-	allAppend, allAcquire := true, true
-	appendOK, acquireOK, putters, putOK := 0, 0, 0, 0
-	var lastPut *zz18Op
-	for i := range progs {
-		if len(progs[i]) != 1 || progs[i][0].kind != zz18Append {
-			allAppend = false
-		}
-		if len(progs[i]) != 1 || progs[i][0].kind != zz18Acquire {
-			allAcquire = false
-		}
-		mutates := false
-		for _, o := range issued[i] {
-			switch {
-			case o.kind == zz18Append && o.err == nil:
-				appendOK++
-			case o.kind == zz18Acquire && o.err == nil:
-				acquireOK++
-			case o.kind == zz18Put:
-				mutates = true
-				lastPut = o
-				if o.err == nil {
-					putOK++
-				} else {
-					rt.Reach("put-reports-a-concurrent-modification")
-				}
-			case o.kind == zz18Delete:
-				mutates = true
-				lastPut = o
-			}
-		}
-		if mutates {
-			putters++
-		}
-	}
-	if allAppend && T > 1 {
-		if init.child {
-			rt.Assert(appendOK == 0, "append-of-an-existing-child-never-succeeds")
-		} else {
-			rt.Assert(appendOK == 1, "conflicting-appends-succeed-exactly-once")
-			rt.Reach("conflicting-appends")
-		}
-	}
-	if allAcquire && T > 1 {
-		free := init.lease == 0
-		if free {
-			rt.Assert(acquireOK == 1, "concurrent-acquires-of-a-free-lease-succeed-exactly-once")
-			rt.Reach("concurrent-acquires-of-a-free-lease")
-		} else {
-			rt.Assert(acquireOK == 0, "acquire-of-a-held-lease-never-succeeds")
-		}
-		won := tail[0]
-		rt.Assert(won.err == error(chord.ErrKVLeaseConflict), "lease-is-held-after-the-race")
-	}
-	// exactly one goroutine mutates the simple value and its last mutation is an acknowledged Put
-	if putters == 1 && lastPut.kind == zz18Put && lastPut.err == nil && tail[0].kind == zz18Get {
-		g := tail[0]
-		rt.Assert(g.err == nil && len(g.got) == 1, "acknowledged-put-is-visible-after-the-join")
-		if len(g.got) == 1 {
-			rt.Assert(g.got[0] == lastPut.val, "acknowledged-put-is-not-lost")
-		}
-		if T > 1 {
-			rt.Reach("single-writer-among-other-goroutines")
-		}
-	}
-	if putOK >= 2 {
-		rt.Reach("two-acknowledged-puts")
-	}
 }
